@@ -24,6 +24,9 @@ type c20In struct {
 	PT    *string `json:"pt,omitempty"`
 	Hunch *string `json:"hunch,omitempty"` // the form field, absent = default
 	Fuel  int     `json:"fuel"`
+	// Usable: well-formed by construction (set by the generator only): complete records, ids that
+	// resolve, numeric values, confidence absent or in 1..100.  The property promises a result page.
+	Usable bool `json:"usable,omitempty"`
 }
 
 var (
@@ -83,6 +86,8 @@ func pgPost(in *c20In) (r pgResp) {
 var pgRowRe = regexp.MustCompile(`(?s)<tr\s*(style="font-weight: bold")?\s*>\s*<td>(\d+)</td>\s*<td>(.*?)</td>\s*<td>([^<]*)</td>\s*<td>([^<]*)</td>\s*</tr>`)
 var pgArcsRe = regexp.MustCompile(`\((\d+) arcs,`)
 
+var c20PlainName = regexp.MustCompile(`^[A-Za-z][A-Za-z0-9_.-]*$`)
+
 func genC20(r *Rng, tier string) []*Case {
 	var cs []*Case
 	reps := 160
@@ -101,6 +106,7 @@ func genC20(r *Rng, tier string) []*Case {
 			return strconv.Itoa(i)
 		}
 		in := c20In{Fuel: 6000}
+		ltCols, ptCols, hunchOK := 0, 0, true
 		if useNames {
 			rows := make([][]string, n)
 			for i := range rows {
@@ -122,6 +128,7 @@ func genC20(r *Rng, tier string) []*Case {
 			seen := map[[2]int]bool{}
 			m := r.Intn(3 * ltN)
 			cols := r.Pick(3, 3, 3, 2)
+			ltCols = cols
 			for i := 0; i < m; i++ {
 				a, b := r.Intn(ltN), r.Intn(ltN)
 				if seen[[2]int{a, b}] {
@@ -154,6 +161,7 @@ func genC20(r *Rng, tier string) []*Case {
 		{
 			var rows [][]string
 			cols := r.Pick(2, 2, 1)
+			ptCols = cols
 			switch w := r.Intn(100); {
 			case w < 12: // none pre-trusted
 			case w < 30: // a single peer, often the highest index
@@ -196,7 +204,7 @@ func genC20(r *Rng, tier string) []*Case {
 		switch w := r.Intn(100); {
 		case w < 8:
 			// absent: default 10
-		case w < 88:
+		case w < 84:
 			h := strconv.Itoa(1 + r.Intn(100))
 			in.Hunch = &h
 		case w < 91:
@@ -208,6 +216,7 @@ func genC20(r *Rng, tier string) []*Case {
 		default:
 			h := []string{"0", "-1", "101", "abc", "", "5.5", "1e2"}[r.Intn(7)]
 			in.Hunch = &h
+			hunchOK = false
 		}
 		if malformed && r.Chance(12) {
 			switch r.Intn(2) {
@@ -217,6 +226,15 @@ func genC20(r *Rng, tier string) []*Case {
 				in.PT = nil
 			}
 		}
+		plain := true
+		if useNames {
+			for _, nm := range names {
+				if !c20PlainName.MatchString(nm) {
+					plain = false
+				}
+			}
+		}
+		in.Usable = plain && !malformed && hunchOK && ltCols == 3 && ptCols == 2 && (useNames || *in.LT != "" || *in.PT != "")
 		cs = append(cs, mk("Calc", in))
 	}
 	return cs
@@ -276,7 +294,7 @@ func runC20(c *Case) error {
 		}
 	}
 	c.Tags = append(c.Tags, fmt.Sprintf("names:%v", in.Names != nil))
-	c.coq = fmt.Sprintf("Calc %s %s %s %s %d %s", cOptCsv(in.Names), cOptCsv(in.LT), cOptCsv(in.PT), h, in.Fuel, obs)
+	c.coq = fmt.Sprintf("Calc %s %s %s %s %s %d %s", cBool(in.Usable), cOptCsv(in.Names), cOptCsv(in.LT), cOptCsv(in.PT), h, in.Fuel, obs)
 	return nil
 }
 
